@@ -13,7 +13,7 @@ not yet accounted) and each stream delivers exactly the bytes of its source, in 
 
 Bound: 1..4 streams, reads and writes, request sizes <= L/4 (fixed or varying per request), optional think time
 between requests, optional latency of the underlying stream (> 0 with >= 2 streams is the class of the known
-finding D11), 20 (thorough: 60) virtual seconds per case, 10 (thorough: 60) seeded schedules."""
+finding D11), 20 (thorough: 60) virtual seconds per case, 10 (thorough: 200) seeded schedules."""
 import io
 import os
 import random
@@ -238,7 +238,7 @@ def main():
     if only:
         cases = [only]
     else:
-        n_sched = 60 if tier == 'thorough' else 10
+        n_sched = 200 if tier == 'thorough' else 10
         for k in range(n_sched):
             L = rnd.choice([40_000, 100_000, 4096])
             n = 1 + k % 4
